@@ -458,6 +458,9 @@ void execute_assignment(StatementExecutor *executor, Interpreter &interpreter,
         // itself after the right-hand side.
         const std::vector<int64_t> lhs_indices =
             interpreter.extract_array_indices(node->left.get());
+        // `T op= v` (parsed as `T = T' op v`): T' reuses these index values.
+        Interpreter::AssignTargetIndicesScope target_indices_scope(
+            interpreter, node, lhs_indices);
 
         // A function call on the right-hand side is NOT pre-evaluated here
         // "to see whether it returns a struct": the single evaluation below
